@@ -254,3 +254,13 @@ LEVEL_NOTE = ('Quantifier: the theorems cover stacks of any depth (the property 
               'Trusted: Coq kernel, extraction, the OCaml/Rust drivers, the hand-written model (validated by differential testing, '
               'not proved equal to the Rust code), core iterator adaptors modelled as list functions. Arithmetic is unbounded Z: the '
               'theorems need only the extent/far-edge ranges stated in `assumptions`; absence of i32 overflow in translate is C08.')
+
+# Mutation record (2026-09-28, scratch worktrees of /repo, EG_REPO=... ./check C03 [C01] [C08]); all caught:
+#   clipped.rs   Clipped::new without the intersection; fill_solid without the intersection; draw_iter without the filter
+#   cropped.rs   parent.translated(-area.top_left)
+#   translated.rs bounding_box translated by +offset
+#   contiguous.rs nth(initial_skip) ; nth(row_skip + 1) ; `self.x <= width` ; initial skip with crop width instead of
+#                size.width ; row_skip without saturating_sub (revert of 980da77: PANIC contiguous.rs:84) ;
+#                initial skip computed in u16 (caught by C08_targets tok only: needs display-scale areas)
+#   core/src/draw_target/mod.rs  default fill_solid with bounding_box() as area ; default clear with an origin-based
+#                rectangle ; default fill_contiguous clipping the area before zipping     (also caught by C01)
